@@ -171,7 +171,8 @@ def name_failures(ur):
         foreign_pre = False
         if kind == 'requires@call':
             pre = [s for s in spans if s.get('label') and 'failed precondition' in (s.get('label') or '')]
-            if pre and not any(os.path.basename(p.get('file') or '') == ur.unit + '.rs' for p in pre):
+            if not pre or not any(os.path.basename(p.get('file') or '') == ur.unit + '.rs' for p in pre):
+                # the violated precondition belongs to a std function specified by vstd (index/slice bounds, unwrap, char boundary, ...)
                 foreign_pre = True
                 kind = 'safety:std-precondition'
         # descriptive text
